@@ -8,6 +8,8 @@ mod segment;
 mod source_map;
 mod symbols;
 mod text_encoding;
+#[cfg(feature = "verif")]
+pub mod verif;
 
 pub use analysis::*;
 pub use evaluator::*;
@@ -1382,6 +1384,17 @@ pub fn codegen(
             }
         }
         ctx.after_pass().expect("Could not finalize pass");
+
+        #[cfg(feature = "verif")]
+        if verif::observe(verif::pass_info(
+            &ctx,
+            &errors,
+            &prev_errors,
+            &prev_undefined,
+        )) {
+            errors.push(Diagnostic::error().with_message("verif: pass loop stopped by observer"));
+            return (Some(ctx), errors);
+        }
 
         // Are there no segments yet? Then create a default one.
         if ctx.segments.is_empty() {
